@@ -120,7 +120,9 @@ class LoopSpec:
 
 import os as _os
 _TRACE = bool(_os.environ.get("PYVC_TRACE"))
+_STMT = bool(_os.environ.get("PYVC_STMT"))
 QUICK_TIMEOUT_MS = 20000
+Z3_FIRST_MS = 1500
 FEAS_TIMEOUT_MS = 250
 
 
@@ -325,9 +327,22 @@ class Engine:
             return True
         s = self.solver
         s.push()
-        s.set("timeout", self.timeout_ms)
         s.add(z3.Not(goal))
+        # portfolio: z3 with a short budget first (it answers most obligations -- and all refutations -- at once),
+        # then cvc5 on the same assertions, then z3 with the full budget
+        quick = min(self.timeout_ms, Z3_FIRST_MS)
+        s.set("timeout", quick)
         r = s.check()
+        backend = "z3"
+        if r != z3.sat and r != z3.unsat and not _os.environ.get("PYVC_NO_SECOND"):
+            st2, be2, dt2 = backends.second_opinion(self.facts, goal, self.timeout_ms)
+            if st2 == "proved":
+                r = z3.unsat
+                backend = be2
+        if r != z3.sat and r != z3.unsat and self.timeout_ms > quick:
+            s.set("timeout", self.timeout_ms)
+            r = s.check()
+            backend = "z3"
         model = None
         if r == z3.sat:
             try:
@@ -357,15 +372,7 @@ class Engine:
         s.set("timeout", FEAS_TIMEOUT_MS)
         dt = time.time() - t0
         self.solver_seconds += dt
-        backend = "z3"
         status = "proved" if r == z3.unsat else ("refuted" if r == z3.sat else "unknown")
-        if status == "unknown":
-            from pyvc import backends
-            st2, be2, dt2 = backends.second_opinion(self.facts, goal, self.timeout_ms)
-            self.solver_seconds += dt2
-            dt += dt2
-            if st2 in ("proved", "refuted"):
-                status, backend = st2, be2
         summary = None
         if model is None and candidate is not None and status == "unknown":
             summary = {"__candidate__": True}
@@ -390,6 +397,18 @@ class Engine:
                         ((" [solver: unknown, %s]" % why) if status == "unknown" else ""), kind=kind)
         self.obligations.append(ob)
         self.qlog.append((name, status))
+        if status != "proved" and _os.environ.get("PYVC_DUMP_SMT"):
+            from pyvc import backends as _b
+            try:
+                d = _os.environ["PYVC_DUMP_SMT"]
+                _os.makedirs(d, exist_ok=True)
+                fn = _os.path.join(d, "%s-%s.smt2" % (name.replace("/", "_").replace(":", "_").replace(" ", "_"), self.path_id))
+                with open(fn, "w") as f:
+                    f.write(_b.to_smt2(self.facts, goal))
+            except Exception as e:
+                print("dump failed", e)
+        if _TRACE:
+            print("    OBL %-8s %.2fs %s [%s] %s" % (status, dt, name, self.path_id, ob.detail[:150].replace("\n", " ")), flush=True)
         if status == "proved":
             self.assume(SBool(goal))     # proved facts may be used afterwards
         return status == "proved"
@@ -425,6 +444,17 @@ class Engine:
         for (t2, h2) in self.keccak_terms:
             if t2.eq(t):
                 return SSeq(h2, "bytes", "int")
+        if not self.keccak_terms:
+            # the one hash constant of the code base: BLANK_HASH = keccak(b'') (checked against the library at setup)
+            try:
+                bh = self.loader.load("trie.constants").ns.get("BLANK_HASH")
+            except Exception:
+                bh = None
+            if isinstance(bh, bytes) and len(bh) == 32:
+                e = z3.Empty(SeqI)
+                self.assume(SBool(specfn.keccak(e) == seq_const(bh)))
+                self.assume(SBool(specfn.unkeccak(seq_const(bh)) == e))
+                self.keccak_terms.append((e, specfn.keccak(e)))
         self.assume(SBool(z3.Length(h) == 32))
         self.assume(SBool(specfn.unkeccak(h) == t))                # A-HASH: the hash determines its pre-image
         for (t2, h2) in self.keccak_terms:
@@ -618,6 +648,8 @@ class Engine:
         m = getattr(self, "st_" + type(st).__name__, None)
         if m is None:
             raise Unsupported("statement %s at %s:%d" % (type(st).__name__, fr.module.path, st.lineno))
+        if _STMT:
+            print("      @%s:%d %s" % (fr.func.name, st.lineno, type(st).__name__), flush=True)
         try:
             return m(st, fr)
         except Unsupported as e:
@@ -1270,7 +1302,9 @@ class Engine:
         kt = self.dict_key(d, key)
         if self.decide(mk_bool(z3.Select(d.has, kt))):
             if getattr(d, "hooks", None) is not None:
-                d.hooks.on_read(self, d, kt, z3.Select(d.val, kt))
+                alt = d.hooks.on_read(self, d, kt, z3.Select(d.val, kt))
+                if alt is not None:
+                    return self.dict_dec(d, alt)
             return self.dict_dec(d, z3.Select(d.val, kt))
         if d.default is not None:
             self.check_mut(d)
